@@ -424,7 +424,14 @@ impl<S: BDDSymbol> BDDEnv<S> {
         F: Fn(Rc<BDD<S>>) -> Rc<BDD<S>>,
     {
         let mut s = Rc::clone(&a);
+        #[cfg(rsbdd_verif)]
+        let mut verif_iterations: usize = 0;
         loop {
+            #[cfg(rsbdd_verif)]
+            {
+                verif_iterations += 1;
+                crate::verif_hooks::fp_step(verif_iterations);
+            }
             let snew = t(Rc::clone(&s));
             if snew == s {
                 break;
